@@ -905,6 +905,19 @@ if types.Implements(t, i) {
 		&group{name: "b_identical2", kind: 'b', pair: "identical2", two: true, cond: `m["x"].Type.IdenticalTo(m["y"])`},
 		&group{name: "d_identical2", kind: 'd', pair: "identical2", two: true, doFn: "f_identical2"})
 	rs.pairs = append(rs.pairs, "identical2")
+	// the same custom filter bound to two variables of one match (makeCustomVarFilter is instantiated per variable and
+	// must hand the right variable's type to the function)
+	for _, tw := range []struct{ name, builtin, custom string }{
+		{"two_both_ptr", "m[\"x\"].Type.Is(`*$_`) && m[\"y\"].Type.Is(`*$_`)", "m[\"x\"].Filter(f_is_ptr) && m[\"y\"].Filter(f_is_ptr)"},
+		{"two_y_slice", "m[\"y\"].Type.Is(`[]$_`)", "m[\"y\"].Filter(f_is_slice)"},
+		{"two_x_not_y_size", "m[\"x\"].Type.Size >= 9 && !(m[\"y\"].Type.Size >= 9)", "m[\"x\"].Filter(f_size_ge_9) && !m[\"y\"].Filter(f_size_ge_9)"},
+		{"two_y_then_x", "m[\"y\"].Type.Is(`error`) || m[\"x\"].Type.Is(`error`)", "m[\"y\"].Filter(f_str_error) || m[\"x\"].Filter(f_str_error)"},
+	} {
+		rs.groups = append(rs.groups,
+			&group{name: "b_" + tw.name, kind: 'b', pair: tw.name, two: true, cond: tw.builtin},
+			&group{name: "c_" + tw.name, kind: 'c', pair: tw.name, two: true, cond: tw.custom})
+		rs.pairs = append(rs.pairs, tw.name)
+	}
 	rs.funcs = append(rs.funcs, "func f_text2(ctx *dsl.DoContext) {\n\tctx.SetReport(ctx.Var(`y`).Text() + ` <- ` + ctx.Var(`x`).Text())\n\tctx.SetSuggest(ctx.Var(`y`).Type().String() + ` <- ` + ctx.Var(`x`).Type().String())\n}\n")
 	rs.groups = append(rs.groups, &group{name: "d_text2", kind: 'd', two: true, doFn: "f_text2",
 		ostr:  func(o *oenv, s *site) string { return s.Text2 + " <- " + s.Text },
